@@ -5,6 +5,7 @@ mod c04;
 mod c06;
 mod c11;
 mod c11_live;
+mod c15;
 
 pub fn run(engine: &str, toks: Vec<Tok>) -> Vec<Tok> {
     match engine {
@@ -20,6 +21,9 @@ pub fn run(engine: &str, toks: Vec<Tok>) -> Vec<Tok> {
         "c11_skip_header" => c11::skip_header(toks),
         "c11_parse_message" => c11::parse_message(toks),
         "c11_echo_eq" => c11::echo_eq(toks),
+        "c15_connect" => c15::connect(toks),
+        "c15_make_auth" => c15::make_auth(toks),
+        "c15_udp" => c15::udp(toks),
         "c11_live" => c11_live::run(toks),
         _ => panic!("unknown engine {}", engine),
     }
